@@ -248,27 +248,32 @@ Step(st, dv, o) ==
     [] o.op = "fproto"   -> AssignFnProto(st, dv, o.f, o.p)
 
 \* ---- the instantiated alphabet at step number n (the value written by step n is n) -----------
-SetForms == {<<"a", "id">>, <<"a", "str">>, <<"b", "comp">>, <<"b", "id">>, <<"1", "num">>, <<"1", "str">>}
-DelForms == {<<"a", "id">>, <<"b", "comp">>, <<"1", "num">>, <<"a", "str">>}
-DefForms == {<<"a", "get">>, <<"a", "set">>, <<"b", "gs">>, <<"a", "val">>, <<"1", "get">>, <<"b", "val">>}
+\* "full" alphabet, and a "core" sub-alphabet (one form per key, fewer literal shapes) for the deepest exhaustive level
+SetForms(c) == IF c THEN {<<"a", "id">>, <<"b", "comp">>, <<"1", "num">>}
+               ELSE {<<"a", "id">>, <<"a", "str">>, <<"b", "comp">>, <<"b", "id">>, <<"1", "num">>, <<"1", "str">>}
+DelForms(c) == IF c THEN {<<"a", "id">>, <<"1", "num">>} ELSE {<<"a", "id">>, <<"b", "comp">>, <<"1", "num">>, <<"a", "str">>}
+DefForms(c) == IF c THEN {<<"a", "get">>, <<"a", "set">>, <<"b", "gs">>, <<"a", "val">>}
+               ELSE {<<"a", "get">>, <<"a", "set">>, <<"b", "gs">>, <<"a", "val">>, <<"1", "get">>, <<"b", "val">>}
+LitForms(c) == IF c THEN {"empty", "data_a", "getset_a", "comp_b"} ELSE LitVariants
 Recv(st)     == {x \in Touch : Alloc(st, x)}
 PlainObjs(st) == {x \in Touch : st.h[x].kind = "plain"}
-CreationOps(st, n) ==
+CreationOps(st, n, c) ==
   LET x == NextFree(st) IN
   IF x = "none" THEN {}
-  ELSE {Op("lit", x, "", v, n, "") : v \in LitVariants}
+  ELSE {Op("lit", x, "", v, n, "") : v \in LitForms(c)}
        \cup {Op("lit", x, "", "proto", n, p) : p \in PlainObjs(st)}
        \cup {Op("create", x, "", "", 0, p) : p \in PlainObjs(st) \cup {"null"}}
-       \cup {Op("new", x, "", f, m, "") : f \in Fns, m \in {0, n}}
+       \cup {Op("new", x, "", f, m, "") : f \in Fns, m \in IF c THEN {n} ELSE {0, n}}
        \cup {Op("func", x, "", "", 0, "")}
-MutationOps(st, n) ==
-  {Op("set", x, kf[1], kf[2], n, "") : x \in Recv(st), kf \in SetForms}
-  \cup {Op("set", x, "a", "id", 0, "") : x \in Recv(st)}                          \* o.a = undefined
-  \cup {Op("del", x, kf[1], kf[2], 0, "") : x \in Recv(st), kf \in DelForms}
-  \cup {Op("def", x, kf[1], kf[2], n, "") : x \in Recv(st), kf \in DefForms}
+MutationOps(st, n, c) ==
+  {Op("set", x, kf[1], kf[2], n, "") : x \in Recv(st), kf \in SetForms(c)}
+  \cup (IF c THEN {} ELSE {Op("set", x, "a", "id", 0, "") : x \in Recv(st)})          \* o.a = undefined
+  \cup {Op("del", x, kf[1], kf[2], 0, "") : x \in Recv(st), kf \in DelForms(c)}
+  \cup {Op("def", x, kf[1], kf[2], n, "") : x \in Recv(st), kf \in DefForms(c)}
   \cup {Op("setproto", x, "", "", 0, p) : x \in Recv(st), p \in PlainObjs(st) \cup {"null"}}
   \cup {Op("fproto", "", "", f, 0, p) : f \in Fns, p \in PlainObjs(st)}
-Alphabet(st, n) == CreationOps(st, n) \cup MutationOps(st, n)
+AlphabetC(st, n, c) == CreationOps(st, n, c) \cup MutationOps(st, n, c)
+Alphabet(st, n) == AlphabetC(st, n, FALSE)
 
 \* may this operation be applied in reference state st?  (histories from other generators are cut at the first one that may not)
 Applicable(st, o, n) == o \in Alphabet(st, n)
@@ -276,10 +281,11 @@ Applicable(st, o, n) == o \in Alphabet(st, n)
 \* =============================================================================================
 \* Part 2: the state machine
 VARIABLES m_st, m_hist, m_prev        \* m_prev: the state before the last step (for the frame property)
+CONSTANT CoreFrom                     \* histories use the core alphabet from this step number on (0 = never)
 m_vars == <<m_st, m_hist, m_prev>>
 
 MInit == m_st = State0 /\ m_hist = <<>> /\ m_prev = State0
-MNext == \E o \in Alphabet(m_st, Len(m_hist) + 1) :
+MNext == \E o \in AlphabetC(m_st, Len(m_hist) + 1, CoreFrom # 0 /\ Len(m_hist) + 1 >= CoreFrom) :
            /\ m_st' = Step(m_st, {}, o).st
            /\ m_hist' = Append(m_hist, o)
            /\ m_prev' = m_st
